@@ -203,6 +203,33 @@ def v6_bases():
         yield v
 
 
+def respell(cidr: str, how: int) -> str:
+    """Other valid spellings of the same network (python's ipaddress accepts all of them)."""
+    addr, _, p = cidr.partition("/")
+    if ":" not in addr:
+        if how % 3 == 1:  # dotted netmask
+            return f"{addr}/{ipaddress.IPv4Network(cidr).netmask}"
+        if how % 3 == 2 and p == "32":  # single address without prefix
+            return addr
+        return cidr
+    a = ipaddress.IPv6Address(addr)
+    h = how % 6
+    if h == 1:
+        addr = str(a).upper()
+    elif h == 2:
+        addr = a.exploded
+    elif h == 3:  # no compression, no leading zeros
+        addr = ":".join(format(int(g, 16), "x") for g in a.exploded.split(":"))
+    elif h == 4:  # dotted quad tail
+        g = a.exploded.split(":")
+        v4 = ipaddress.IPv4Address(int(g[6] + g[7], 16))
+        head = ":".join(format(int(x, 16), "X") for x in g[:6])
+        addr = f"{head}:{v4}"
+    elif h == 5 and p == "128":
+        return str(a).upper()
+    return f"{addr}/{p}"
+
+
 def v6_cases(tier: str):
     allbits = 8 if tier == "quick" else 12
     for p in range(129):
@@ -243,12 +270,16 @@ def run(ctx) -> None:
         i += 1
         if i % ctx.nshards == ctx.shard:
             ctx.do({"kind": "v4", "cidr": cidr, "via_query": i % 7 == 0})
+            if i % 4 == 0 or cidr.endswith("/32"):
+                ctx.do({"kind": "v4", "cidr": respell(cidr, 1 + i % 2), "via_query": i % 8 == 0})
             if i % 5 == 0:
                 ctx.do({"kind": "native", "cidr": cidr})
     for c in v6_cases(ctx.tier):
         i += 1
         if i % ctx.nshards == ctx.shard:
             ctx.do(c)
+            if i % 3 == 0 or c["cidr"].endswith("/128"):
+                ctx.do(dict(c, cidr=respell(c["cidr"], 1 + i % 5)))
             if i % 5 == 0:
                 ctx.do({"kind": "native", "cidr": c["cidr"]})
     if ctx.shard == 0:
@@ -269,7 +300,7 @@ def random_v4(draw):
     a = draw(st.integers(0, 2 ** 32 - 1))
     mask = (0xFFFFFFFF << (32 - p)) & 0xFFFFFFFF
     return {"kind": draw(st.sampled_from(["v4", "v4", "v4", "native"])),
-            "cidr": f"{ipaddress.IPv4Address(a & mask)}/{p}", "via_query": draw(st.booleans())}
+            "cidr": respell(f"{ipaddress.IPv4Address(a & mask)}/{p}", draw(st.integers(0, 2))), "via_query": draw(st.booleans())}
 
 
 @st.composite
@@ -288,7 +319,7 @@ def random_v6(draw):
         for g in hg:
             h = (h << 16) | g
         hosts.add(h & ((1 << hb) - 1))
-    return {"kind": "v6", "cidr": f"{ipaddress.IPv6Address(v & mask)}/{p}", "hosts": sorted(hosts)}
+    return {"kind": "v6", "cidr": respell(f"{ipaddress.IPv6Address(v & mask)}/{p}", draw(st.integers(0, 5))), "hosts": sorted(hosts)}
 
 
 @st.composite
